@@ -12,7 +12,7 @@ def lvl(pid):
     return ("Bounded symbolic model checking of kevo's own code: the harnesses ("+hs+") are executed over go/ssa built from /repo's working tree on every run; "
             "inputs, operation programs, crash points / schedules are symbolic or forked, every branch and assertion is decided by z3, a pass means "
             "'holds for every value within the bounds stated per harness in the evidence', a counterexample is replayed against the natively compiled code before it is reported. "
-            "Nothing is claimed outside the bounds; "+TEXT.get(pid,""))
+            "One worker's complete solver session per harness is re-decided by z3 5.1 (and cvc5 in the thorough tier) and the verdicts compared. Nothing is claimed outside the bounds. "+TEXT.get(pid,""))
 m={"version":1,
  "setup_cmd":"cd engine && GOFLAGS=-mod=mod GOPROXY=off go build -o ../bin/gosym .",
  "hooks":{"guard":"verif","enable":"no hook is committed to /repo: harness files (//go:build verif) live in /verif/harness and are injected with go/packages Overlay (symbolic run) and go test -overlay -tags verif (native replay)","baseline_off_cmd":json.load(open('/root/.vp/BASELINE.json'))['cmd'],"source_commits":[],"add_only":True},
